@@ -3,7 +3,7 @@ import re
 
 PROPS = {
     "C15": {
-        "modules": ["Ark.Props.C15"],
+        "modules": ["Ark.Props.C15", "Ark.Props.C15a", "Ark.Props.C15b"],
         "rule": "one op line per BigInt<N> operation (N=1..13); distinct = distinct canonical op line; "
                 "non-trivial = some operand outside {0,1}",
         "exhaustive": ["find_naf / find_relaxed_naf / find_wnaf(w=2..7) / signed_mod_reduction on every 8-bit value (N=1)"],
